@@ -148,7 +148,43 @@ func runFiles(raw json.RawMessage) interface{} {
 		"entries": entries, "readable": readable, "chdirOK": chdirOK, "effDir": unsub(effDir), "typedSub": unsub(typed)}
 }
 
+// genFilesHidden: hidden entries are offered only when the typed last segment starts with a dot -
+// whatever the names of the directories around it (a dot directory as Context.Dir or Chdir target,
+// a dot directory typed as the directory part)
+func genFilesHidden(r *rng) filesIn {
+	dot := pick(r, []string{".cfg", ".config", "plain", ".d/.e", "vis/.in"})
+	in := filesIn{}
+	parts := strings.Split(dot, "/")
+	for i := range parts {
+		in.Tree = append(in.Tree, treeEntry{Path: strings.Join(parts[:i+1], "/"), Kind: "dir"})
+	}
+	for _, n := range []string{".secret", ".cache", "vis.txt", "sub"} {
+		kind := "file"
+		if n == ".cache" || n == "sub" {
+			kind = "dir"
+		}
+		in.Tree = append(in.Tree, treeEntry{Path: dot + "/" + n, Kind: kind})
+	}
+	switch r.intn(3) {
+	case 0:
+		in.CtxDir = dot
+		in.Typed = pick(r, []string{"", ".", ".s", "v", "sub/", "./"})
+	case 1:
+		in.CtxDir = ""
+		in.Chdir = &dot
+		in.Typed = pick(r, []string{"", ".", ".c", "s"})
+	default:
+		in.CtxDir = ""
+		in.Typed = dot + "/" + pick(r, []string{"", ".", ".s", "v"})
+	}
+	in.DirOnly = r.chance(25)
+	return in
+}
+
 func genFiles(r *rng, tier string) interface{} {
+	if r.intn(12) == 0 {
+		return genFilesHidden(r)
+	}
 	names := []string{"a", "b", "ab", "dir", "sub", "file.txt", "main.go", "x.md", ".hidden", ".cfg", "with space", "it's", "é", "日本", "a.b.c", "-dash", "UPPER"}
 	in := filesIn{}
 	dirs := []string{""}
